@@ -38,6 +38,20 @@ def handle (line : String) : String :=
       let eb := int32ToBytes (BitVec.ofInt 32 y)
       s!"{hexOfBytes ea} {hexOfBytes eb} {b2s (lexLt ea eb)} {(uToInt32 (BitVec.ofNat 32 (ofBE ea))).toInt}"
     | _, _ => "bad-op"
+  | ["sk", _, a, b] =>
+    match a.toInt?, b.toInt? with
+    | some x, some y =>
+      let ea := int64ToBytes (BitVec.ofInt 64 x)
+      let eb := int64ToBytes (BitVec.ofInt 64 y)
+      s!"{hexOfBytes ea} {hexOfBytes eb} {b2s (lexLt ea eb)}"
+    | _, _ => "bad-op"
+  | ["skts", sa, na, sb, nb] =>
+    match sa.toInt?, na.toInt?, sb.toInt?, nb.toInt? with
+    | some x, some xn, some y, some yn =>
+      let ea := timestampSortKey x xn
+      let eb := timestampSortKey y yn
+      s!"{hexOfBytes ea} {hexOfBytes eb} {b2s (lexLt ea eb)}"
+    | _, _, _, _ => "bad-op"
   | ["i16", a] =>
     match a.toInt? with
     | some x =>
